@@ -100,7 +100,9 @@ let run_case (toks : string list) (obs : (string, string list) Hashtbl.t) : stri
        | Some ot ->
            let ok = parse_kv (List.tl (List.tl ot)) in
            if kv "res" ok = "panic" then Printf.sprintf "PROPFAIL %s sig=panic decoder panicked: %s" id (kv "msg" ok) else
-           let env = parse_env k in
+           (* the inflation oracle for compressed calls in the fed stream is computed by the harness with the standard
+              library / msgpackzip directly (not through the package's compressors) *)
+           let env = (let e = parse_env k in { e with inflated = e.inflated @ (parse_env [ ("inflated", kv "inflated" ok) ]).inflated }) in
            let max = z_to_coq (ZZ.of_string (let m = kv "max" k in if m = "" then "1048576" else m)) in
            let stream = bytes_of_hex (kv "stream" k) in
            let mo = run_frames (nat_of_int 64) env max stream in
